@@ -17,6 +17,7 @@ import (
 	"sync/atomic"
 	"time"
 
+	"github.com/nuetzliches/hookaido/internal/verifhook"
 	sqlite3 "modernc.org/sqlite"
 )
 
@@ -551,6 +552,7 @@ func (s *SQLiteStore) Enqueue(env Envelope) error {
 	}
 
 	startedAt := time.Now()
+	verifhook.Point("sqlite.enqueue.before_autocommit_insert")
 	_, err = s.db.ExecContext(context.Background(), `
 INSERT INTO queue_items (
   id, route, target, state, received_at, attempt, next_run_at,
@@ -577,6 +579,7 @@ INSERT INTO queue_items (
 		return mapQueueInsertError(err)
 	}
 
+	verifhook.Point("sqlite.enqueue.after_autocommit_insert")
 	s.observeSQLiteTx(sqliteTxClassWrite, startedAt, true)
 	s.signal()
 	return nil
@@ -3095,17 +3098,20 @@ func (s *SQLiteStore) beginImmediateWithRetry(ctx context.Context, conn *sql.Con
 			}
 			return time.Time{}, err
 		}
+		verifhook.Point("sqlite.begin")
 		return time.Now(), nil
 	}
 	return time.Time{}, errors.New("sqlite: begin immediate retry exhausted")
 }
 
 func (s *SQLiteStore) commitTx(ctx context.Context, conn *sql.Conn, startedAt time.Time, class sqliteTxClass) error {
+	verifhook.Point("sqlite.before_commit")
 	if _, err := conn.ExecContext(ctx, "COMMIT;"); err != nil {
 		s.observeSQLiteError(err)
 		s.observeSQLiteTx(class, startedAt, false)
 		return err
 	}
+	verifhook.Point("sqlite.after_commit")
 	s.observeSQLiteTx(class, startedAt, true)
 	return nil
 }
